@@ -107,9 +107,10 @@ def lit_value(t):
     return t.value
 
 
-def model_tree(m, I):
+def model_tree(m, I, numbering=None):
     """the dataclass tree Hugr.to_model() returned, reduced to what the property speaks about.
-    Fails closed on anything it does not know."""
+    Fails closed on anything it does not know.  numbering (diagnostic only): interned link name -> the number
+    it spells."""
     import hugr.model as model
     if not isinstance(m, model.Module):
         raise HarnessError("not a Module")
@@ -126,7 +127,10 @@ def model_tree(m, I):
     def name(x):
         if not isinstance(x, str):
             raise HarnessError("link name is not a string")
-        return I("link:" + x)
+        k = I("link:" + x)
+        if numbering is not None and x.isascii() and x.isdigit() and len(x) < 9:
+            numbering[k] = int(x)
+        return k
 
     def sym(x):
         return I("sym:" + x)
@@ -362,7 +366,7 @@ NAMED = ["call_twice", "load_twice", "order_hint", "cfg_entry", "cfg_loop", "fn_
          "unused_outputs", "order_fan"]
 # programs outside the guard of the theorems (not claimed valid): model and implementation must still agree
 BOUNDARY = ["dfg_root", "cfg_no_entry", "half_order"]
-GUARDS = ("g_valid", "g_order", "g_ports", "g_stars", "g_cfg", "g_hints", "g_total", "g_all", "g_noerr")
+GUARDS = ("g_valid", "g_order", "g_ports", "g_stars", "g_cfg", "g_hints", "g_total", "g_all", "g_noerr", "g_numexact")
 
 
 # ----------------------------------------------------------------------------- python.rs / hugr.model -> coq/gen/ModelAttrs.v
@@ -553,21 +557,23 @@ class C12(fw.Prop):
                 m = pk.modules[0] if len(pk.modules) == 1 else None
             else:
                 m = h.to_model()
-            tree = model_tree(m, I)
+            numbering = {}
+            tree = model_tree(m, I, numbering)
             err = None
         except HarnessError as e:
-            tree, err = None, "harness:" + str(e)
+            tree, err, numbering = None, "harness:" + str(e), {}
         except Exception as e:
-            tree, err = None, type(e).__name__
-        return {"view": view, "tree": tree, "raised": err, "prog": p}
+            tree, err, numbering = None, type(e).__name__, {}
+        return {"view": view, "tree": tree, "raised": err, "prog": p, "numbering": sorted(numbering.items())}
 
     def literal(self, case, obs, ctx):
         if "error" in obs:
             # the HUGR could not be obtained: an empty non-module view with a failed export, claimed valid
-            return "(CExport (mkH (HNode (mkN 0 KUnknown 0 0 (-1) 0 0 0 []) []) []) None true)"
-        return "(CExport %s %s %s)" % (g_view(obs["view"]),
-                                       "None" if obs["tree"] is None else "(Some %s)" % g_region(obs["tree"]),
-                                       gbool(case.get("valid", True)))
+            return "(CExport (mkH (HNode (mkN 0 KUnknown 0 0 (-1) 0 0 0 []) []) []) None true [])"
+        return "(CExport %s %s %s %s)" % (g_view(obs["view"]),
+                                          "None" if obs["tree"] is None else "(Some %s)" % g_region(obs["tree"]),
+                                          gbool(case.get("valid", True)),
+                                          glist("(%s, %s)" % (gN(a), gN(b)) for a, b in obs.get("numbering", [])))
 
     # -- classification
     def stats(self, obs):
@@ -689,6 +695,7 @@ class C12(fw.Prop):
         with_cfg = [i for i, o in enumerate(observations) if "view" in o and self.stats(o)["kinds"].get("KCFG", 0)]
         out["cases_with_cfg"] = len(with_cfg)
         out["cases_with_sibling_order_edge"] = sum(1 for o in observations if "view" in o and self.stats(o)["sib_order"] > 0)
+        ctx.stats["first_use_numbers_exact"] = "%d/%d" % (out["numexact"]["of_claimed_valid"], len(claimed))
         ctx.stats["guard_total_met"] = "%d/%d" % (out["total"]["of_claimed_valid"], len(claimed))
         ctx.stats["guard_hints_met"] = "%d/%d" % (out["hints"]["of_claimed_valid"], len(claimed))
         return out
